@@ -1,7 +1,7 @@
 (* c11 driver.  stdin: one case per line -> stdout one result per line.  Keys are hex strings of their UTF-8
    bytes ("-" = empty key).  A config is  key=v,key=v  with v in 1/0/n  ("-" = empty config).
      C <nregs> <probe keys, comma separated> ; op ; op ...     config operations on a register bank
-          ops:  s i K b | u i K | i i K b | c i | m i j | f i | k i | d i | y i j | j i
+          ops:  s i K b | u i K | i i K b | c i | m i j | w i j (wasm set_lint_config) | f i | k i | d i | y i j | j i
           ->  {cfg} {cfg} ... | bits bits ...      (is_rule_enabled of every probe key, per register)
      J <hex of a JSON text>        -> N | {cfg}                       (serde_json::from_str::<LintGroupConfig>)
      P <cfg>                       -> hex of serde_json::to_string
@@ -37,6 +37,7 @@ let cop_of (w : string list) : cop = match w with
   | ["i"; i; k; b] -> CSetIfUnset (nat i, key_of_hex k, bool_of b)
   | ["c"; i] -> CClear (nat i)
   | ["m"; i; j] -> CMerge (nat i, nat j)
+  | ["w"; i; j] -> CWasmSet (nat i, nat j)
   | ["f"; i] -> CFill (nat i)
   | ["k"; i] -> CCurated (nat i)
   | ["d"; i] -> CDefault (nat i)
